@@ -281,6 +281,13 @@ def run_check(prop: str, tier: str, seed: int, fn):
     try:
         fn(ctx)
     except (MachineryFailure, tlc.TlcError) as e:
+        if ctx.violations:
+            # violations of the property were already established; a later self-test (e.g. a corrupted-trace control built
+            # from the implementation's own - now wrong - output) cannot take that back: report the violations
+            ctx.note("machinery failure after violations had been recorded (not counted): " + str(e)[:1000])
+            ctx.write_evidence(status="violations_then_machinery_failure")
+            print(f"[{prop}] tier={tier} seed={seed} violations={len(ctx.violations)} (a later self-test failed: {str(e)[:200]})", flush=True)
+            return 1
         print(f"MACHINERY-FAILURE property={prop}: {e}", file=sys.stderr, flush=True)
         ctx.note("machinery failure: " + str(e)[:2000])
         ctx.write_evidence(status="machinery_failure")
